@@ -194,6 +194,33 @@ def main(ctx: Ctx) -> int:
         cov["shielding_table_searches_checked"] = nsearch
     except Exception as e:   # noqa
         ctx.notes.append(f"shielding table searches could not be read: {type(e).__name__}: {str(e)[:100]}")
+    # derived quantities that call a helper function with arguments named exactly like the helper's parameters (lambdabar =
+    # GetCharactWavelength(h2col, cocol), ...): the names must arrive in the order of the prototype
+    try:
+        import re as _re
+        nord = 0
+        for fmt_, text_, kw_ in (("uclchem", "\n".join(encoders.uclchem({"r": [m_], "p": ["C", "O"], "a": 2.5e-10, "b": 0.0, "c": 2.5, "tmin": -1.0, "tmax": -1.0, "idx": 1,
+                                                                         "code": "PHOTON"}) for m_ in ("CO", "CH")) + "\n", {}),
+                                  ("leeds", ftab.read_text(), {"shielding": {"H2": "L96Table", "CO": "V09Table", "N2": "L13Table"}})):
+            fo = ctx.sub("in") / f"argorder.{fmt_}"
+            fo.write_text(text_)
+            neto = Network(filelist=str(fo), fileformats=fmt_, **kw_)
+            outo = ctx.scratch / "r" / f"argorder_{fmt_}"
+            render(neto, "cvode", "dense", outo, templates=["src/naunet_rates.cpp.j2", "include/naunet_physics.h.j2"])
+            protos = {m_.group(1): [a_.split()[-1].lstrip("*&") for a_ in m_.group(2).split(",") if a_.strip()]
+                      for m_ in _re.finditer(r"\b(?:double|realtype|int)\s+(\w+)\s*\(([^()]*)\)\s*;", creader.strip_comments((outo / "include/naunet_physics.h").read_text()))}
+            for m_ in _re.finditer(r"(?:realtype|double)\s+(\w+)\s*=\s*(\w+)\s*\(([^();]*)\)\s*;", creader.strip_comments((outo / "src/naunet_rates.cpp").read_text())):
+                var, fn_, args = m_.group(1), m_.group(2), [a_.strip() for a_ in m_.group(3).split(",")]
+                params = protos.get(fn_)
+                if params and sorted(args) == sorted(params) and len(set(args)) == len(args):
+                    nord += 1
+                    traces.append({"tid": len(traces) + 1, "fmt": "argorder", "code": 0, "a": pair(0.0), "b": pair(0.0), "c": pair(0.0), "zb": True, "zc": True, "sh": "",
+                                   "obs": {"refused": False, "valid": True, "tree": ["none"], "expr": "", "err": "", "in_order": args == params},
+                                   "line": f"{fmt_}: {var} = {fn_}({', '.join(args)}) against the prototype {fn_}({', '.join(params)})", "vals": [0.0, 0.0, 0.0],
+                                   "paired": False, "argorder": True})
+        cov["named_argument_orders_checked"] = nord
+    except Exception as e:   # noqa
+        ctx.notes.append(f"named-argument orders could not be read: {type(e).__name__}: {str(e)[:100]}")
     v = validate_traces(ctx, "Trace_RateLaws.tla", "Trace_RateLaws.cfg",
                         [{k: t[k] for k in ("tid", "fmt", "code", "a", "b", "c", "zb", "zc", "sh", "obs")} for t in traces], "laws", chunk=2000)
     cov["traces_validated_against_impl"] = len(traces)
